@@ -193,7 +193,8 @@ impl St {
                             return Err(format!("drain({spec}) on a buffer of length {len} did not panic"));
                         }
                         for id in &yids {
-                            self.dig(*id as u64 ^ 0x77);
+                            let v = ledger::slot(*id).map(|s| s.val).unwrap_or(0);
+                            self.dig(v as u64 ^ 0x77);
                         }
                         match end {
                             End::Drop => {
